@@ -23,7 +23,10 @@ import os
 import re
 import sys
 
-from ..framework import VERIF, COQ, Lock, sh
+import fcntl
+import time
+
+from ..framework import VERIF, COQ, sh
 
 RULE = ('every alias of the operator vocabulary of dd/_abc.py x the 8 valuations of '
         '(u, v, w) for each of the 4 wrappers (a case is (wrapper, alias, valuation); '
@@ -501,9 +504,9 @@ def balanced(m, p):
     for e in p:
         r = _step(e, False, held, m['kind'], m['params'])
         if r[0] == 'done':
-            return r[1], r[2]
+            return r[1], ('' if r[1] else r[2])
         held = r[1]
-    return (not held), f'still held at the end: {held}'
+    return (not held), ('' if not held else f'still held at the end: {held}')
 
 
 def _ends_in_raise(p):
@@ -609,6 +612,30 @@ def _coqc(rel):
     return sh(f'cd {COQ} && timeout 600 coqc -Q . DD {rel}', timeout=700)
 
 
+class _BuildLock:
+    """the framework's build lock, taken without blocking for ever (the
+    same process may already hold it through another descriptor)"""
+
+    def __enter__(self):
+        self.f = open(os.path.join(VERIF, '.build.lock'), 'w')
+        t0 = time.time()
+        while True:
+            try:
+                fcntl.flock(self.f, fcntl.LOCK_EX | fcntl.LOCK_NB)
+                self.held = True
+                return self
+            except OSError:
+                if time.time() - t0 > 900:
+                    self.held = False
+                    return self
+                time.sleep(0.5)
+
+    def __exit__(self, *a):
+        if self.held:
+            fcntl.flock(self.f, fcntl.LOCK_UN)
+        self.f.close()
+
+
 def isolated_files():
     d = os.path.join(COQ, 'Properties')
     return sorted(f for f in os.listdir(d) if re.fullmatch(r'C19_\w+\.v', f))
@@ -620,7 +647,7 @@ def check_isolated(ctx):
     it, and what it needs, with coqc when the build did not) and report the
     ones that do not compile."""
     already = ' '.join(b['name'] for b in ctx.broken)
-    with Lock():
+    with _BuildLock():
         deps = []
         for rel in CHAIN:
             v = os.path.join(COQ, rel)
@@ -649,10 +676,11 @@ def check_isolated(ctx):
                 except OSError:
                     pass
                 rc, out = _coqc(rel)
-                for ext in ('.glob',):
-                    if rc != 0:
+                if rc != 0:
+                    for junk in (v[:-2] + '.glob',
+                                 os.path.join(COQ, 'Properties', '.' + f[:-2] + '.aux')):
                         try:
-                            os.remove(v[:-2] + ext)
+                            os.remove(junk)
                         except OSError:
                             pass
             if not os.path.exists(vo):
